@@ -244,23 +244,48 @@ def item_loop(ctx):
     ok = len(evs) == 1 and is_name(lp.target) and is_name(evs[0].args[0], lp.target.id) and norm(evs[0].args[1]) == 'self.spec' \
         and is_name(evs[0].args[2], u.params[2])
     ctx.ob(ok, u, 'each item is evaluated against the grouping spec in this frame: %s' % [norm(e) for e in evs])
-    st = stmt_of(evs[0]) if evs else None
-    b = match(st, '$last, $ret = ($ret, $$ev)') if st is not None else None
-    if b is None and st is not None:
-        # the same as two statements: ``last = ret`` immediately before ``ret = <evaluation>``
-        b2 = match(st, '$ret = $$ev')
-        blk = lp.body
-        if b2 and st in blk and blk.index(st) > 0:
-            b1 = match(blk[blk.index(st) - 1], '$last = %s' % b2['ret'])
-            if b1:
-                b = {'last': b1['last'], 'ret': b2['ret']}
-    ctx.ob(b is not None, u, 'the previous result is remembered: %s' % (norm(st) if st is not None else None))
-    last, ret = (b['last'], b['ret']) if b else (None, None)
-    stop = [n for n in ast.walk(lp) if isinstance(n, ast.If) and isinstance(n.test, ast.Compare) and sentinel_of(p, u, n.test.comparators[0]) == 'STOP']
-    ok = len(stop) == 1 and is_name(stop[0].test.left, ret) and isinstance(stop[0].body[0], ast.Return) and is_name(stop[0].body[0].value, last)
-    ctx.ob(ok, u, 'STOP ends the run with the last real result: %s' % [norm(s_.body[0]) for s_ in stop])
+    # one iteration, symbolically: P = what the loop would return before this item, NEW = this
+    # item's result.  STOP must return P, otherwise the loop goes on holding NEW.
     r = [n for n in u.node.body if isinstance(n, ast.Return)]
-    ctx.ob(len(r) == 1 and is_name(r[0].value, ret), u, 'otherwise the last result is returned')
+    ret = r[0].value.id if len(r) == 1 and is_name(r[0].value) else None
+    ctx.ob(ret is not None, u, 'after the last item the running result is returned: %s' % [norm(x) for x in r])
+    env = {ret: 'P'}
+    stop_returns = []
+    tested = []
+    supported = True
+
+    def val(e):
+        if evs and e is evs[0]:
+            return 'NEW'
+        if is_name(e):
+            return env.get(e.id, ('var', e.id))
+        return ('expr', norm(e))
+    for st in lp.body:
+        if isinstance(st, ast.Assign) and len(st.targets) == 1:
+            tg = st.targets[0]
+            if is_name(tg):
+                env[tg.id] = val(st.value)
+                continue
+            if isinstance(tg, ast.Tuple) and isinstance(st.value, ast.Tuple) and len(tg.elts) == len(st.value.elts) \
+                    and all(is_name(x) for x in tg.elts):
+                vals = [val(x) for x in st.value.elts]
+                for x, v in zip(tg.elts, vals):
+                    env[x.id] = v
+                continue
+        if isinstance(st, ast.If) and isinstance(st.test, ast.Compare) and len(st.test.ops) == 1 and isinstance(st.test.ops[0], ast.Is) \
+                and sentinel_of(p, u, st.test.comparators[0]) == 'STOP' and is_name(st.test.left) \
+                and len(st.body) == 1 and isinstance(st.body[0], ast.Return) and not st.orelse:
+            tested.append(env.get(st.test.left.id))
+            stop_returns.append(val(st.body[0].value) if st.body[0].value is not None else None)
+            continue
+        supported = False
+    ok = supported and tested == ['NEW']
+    ctx.ob(ok, u, "each item's result is tested against STOP", '' if ok else 'loop body not of the expected shape: %s' % [norm(x)[:50] for x in lp.body])
+    ok = supported and stop_returns == ['P']
+    ctx.ob(ok, u, 'STOP ends the run with the last real result (the result before this item)',
+           '' if ok else 'returned at STOP: %s' % stop_returns)
+    ok = supported and env.get(ret) == 'NEW'
+    ctx.ob(ok, u, 'otherwise the item\'s result becomes the running result', '' if ok else '%s holds %s at the end of an iteration' % (ret, env.get(ret)))
     cv = choice_values(cfg, cfg.node_of(lp), ret, 'type(self.spec) in (dict, list)', entry_only=True) if ret else None
     ok = cv is not None and cv[0] == ['type(self.spec)()'] and cv[1] == ['None']
     ctx.ob(ok, u, "an empty input yields an empty container of the spec's type")
@@ -400,7 +425,10 @@ def fold_claims_in_group_mode(ctx):
                     and claim[0] in exclusive(gcfg, t, 'true'):
                 # the flag that later selects aggregation is true exactly on this edge
                 flag_set = [n for n in exclusive(gcfg, t, 'true') if n.kind == 'stmt' and matches(n.ast, '$f = True')]
-                ok = bool(flag_set) or is_name(t.ast)
+                region = set(exclusive(gcfg, t, 'true'))
+                agg_here = [c for c in calls_in(fu) if isinstance(c.func, ast.Attribute) and c.func.attr == '_agg'
+                            and gcfg.node_containing(c) in region]
+                ok = bool(flag_set) or is_name(t.ast) or bool(agg_here)
     ctx.ob(ok, fu, 'in group mode the outermost Fold of a leaf aggregates across items')
     ag = [c for c in calls_in(fu) if isinstance(c.func, ast.Attribute) and c.func.attr == '_agg']
     ok = len(ag) == 1 and is_name(ag[0].args[0], fu.params[1]) and norm(ag[0].args[1]) == 'scope[ACC_TREE]'
